@@ -28,6 +28,7 @@ func runC04(c *Ctx) {
 	c04R5(c)
 	c04R6(c)
 	c04R7(c)
+	c04R10(c)
 	c01R7As(c, c.R.Rule("R8", "K3 (= C01.R7) v2 split runs are released in place: runAckNacker.vote hands a completed run to the parent at the point of the walk where it completes (behind the run-complete edge, marked released first), dispatched by its sticky nacked flag", 3))
 	c04R9(c)
 }
@@ -125,7 +126,7 @@ func c04R7(c *Ctx) {
 func c04R6(c *Ctx) {
 	r := c.R.Rule("R6", "K5 frozen guarded-by table: every field of the v2 fan-out vote tally (multiAckNacker) is accessed under its mu, and the v1 destination acker's message queue under queueMutex while the worker runs", 40)
 	c.guardTable(r, guardEntry{Rel: pFunnel, Struct: "multiAckNacker", Mutex: "mu", Min: 30,
-		Fields: []string{"parent", "branches", "positions", "posIndex", "ackVotes", "terminal", "acked", "record", "nackErr", "nackTaskID", "released"}})
+		Fields: []string{"parent", "branches", "positions", "posIndex", "ackVotes", "terminal", "acked", "record", "nackErr", "nackTaskID", "released", "failed"}})
 	c.guardTable(r, guardEntry{Rel: pStream, Struct: "DestinationAckerNode", Mutex: "queueMutex", Min: 4,
 		Fields: []string{"queue"},
 		Exempt: map[string]string{"(*" + pStream + ".DestinationAckerNode).teardown": "runs in the worker goroutine after its loop ended and Run stopped enqueueing (the code says so: 'no need to lock, at this point the worker is not running anymore')"}})
@@ -291,7 +292,7 @@ func c04R3(c *Ctx) {
 
 func c04R3As(c *Ctx, r string) {
 	var fields []*types.Var
-	for _, f := range []string{"ackVotes", "terminal", "acked", "record", "nackErr", "nackTaskID", "released"} {
+	for _, f := range []string{"ackVotes", "terminal", "acked", "record", "nackErr", "nackTaskID", "released", "failed"} {
 		if v := c.Field(r, pFunnel, "multiAckNacker", f); v != nil {
 			fields = append(fields, v)
 		}
@@ -337,6 +338,56 @@ func c04R3As(c *Ctx, r string) {
 	ls := kit.Locksets(fn, spec, []string{"recv.mu"})
 	for _, pc := range parentCalls {
 		c.R.Check(containsLock(ls[pc], "recv.mu"), r, "releaseLocked: parent call made with m.mu held", c.Pos(pc.Pos()), "held "+ls[pc], "the parent Ack/Nack call is made after releasing m.mu: two branches can reach the source out of position order", true)
+	}
+	// a failed parent call is final (F28): the branches of a fan-out keep voting after one of them failed, and the
+	// head position is still "terminal, not released" — without a sticky failure the next vote repeats the parent
+	// Ack/Nack: a nack whose DLQ write failed is written again (and this time acked), one whose source ack failed
+	// is dead-lettered twice
+	{
+		T := c.W.LookupType(pFunnel, "multiAckNacker")
+		var sticky *types.Var
+		if T != nil {
+			st := T.Underlying().(*types.Struct)
+			for i := 0; i < st.NumFields(); i++ {
+				f := st.Field(i)
+				if !types.Identical(f.Type(), types.Universe.Lookup("error").Type()) || f.Name() == "nackErr" {
+					continue
+				}
+				g := kit.NewGates()
+				for _, l := range kit.FieldLoads(fn, f) {
+					g.AddEdges(kit.NilEdges(l, true), f.Name()+" == nil")
+				}
+				all := !g.Empty()
+				for _, pc := range parentCalls {
+					if ok, _ := kit.MustPass(pc, g); !ok {
+						all = false
+					}
+				}
+				if all {
+					sticky = f
+				}
+			}
+		}
+		if sticky == nil {
+			c.R.Fail(r, "releaseLocked: a failed parent Ack/Nack is not repeated", c.Pos(fn.Pos()), "no sticky failure: the parent Ack/Nack calls of releaseLocked are not guarded by an error field that is nil only while no parent call has failed — after a failed DLQ hand-off the next vote of a sibling branch calls parent.Nack for the same position again: the record is written to the DLQ a second time, counted twice in the nack window and (if that write succeeds) acked to the source although the pass already failed with the DLQ error")
+		} else {
+			for _, pc := range parentCalls {
+				g := kit.NewGates()
+				for _, stf := range kit.FieldStores(fn, sticky) {
+					if !kit.IsNilConst(stf.Val) {
+						g.AddInstr(stf, "m."+sticky.Name()+" = err")
+					}
+				}
+				okAll := !g.Empty()
+				for _, e := range kit.FailEdges(pc) {
+					if pass, _ := kit.AllExitsFromEdge(e, false, kit.ExitSpec{Gates: g}); !pass {
+						okAll = false
+					}
+				}
+				c.R.Check(okAll, r, "releaseLocked: a failed parent call is recorded before returning", c.Pos(pc.Pos()), "m."+sticky.Name()+" set on the failure edge", "a failure of the parent Ack/Nack is not recorded in m."+sticky.Name()+" on every exit behind its failure edge: the next vote repeats the call", true)
+			}
+			c.WhoMayWrite(r, "multiAckNacker."+sticky.Name(), sticky, []string{pFunnel + ".(*multiAckNacker).releaseLocked"}, nil)
+		}
 	}
 	// released advanced only after the parent call succeeded
 	stores := storesToField(fn, releasedF, nil)
@@ -641,4 +692,107 @@ func capturedIs(v ssa.Value, want ssa.Value) bool {
 func isFreeVarOf(addr ssa.Value, cell *ssa.Alloc) bool {
 	fv, ok := addr.(*ssa.FreeVar)
 	return ok && resolveFreeVar(fv) == ssa.Value(cell)
+}
+
+// c04R10: what the plugin has been told stays a PREFIX of the acked sequence (F26): once deliverOneAck gives up on a
+// queued ack — whatever the reason — the delivery goroutine sends nothing that was queued behind it. deliverOneAck
+// reports whether it delivered (true only behind the Send success edge), and in deliverDeferredAcks the call is
+// guarded by a condition computed from the results of the earlier calls.
+func c04R10(c *Ctx) {
+	r := c.R.Rule("R10", "K3/K6 no ack is delivered past a dropped one: Source.deliverOneAck returns true only behind the stream.Send success edge, and in deliverDeferredAcks every deliverOneAck call lies behind a branch on a (loop-carried) value computed from deliverOneAck's own results", 3)
+	one := c.SSA(r, pConn, "(*Source).deliverOneAck")
+	loop := c.SSA(r, pConn, "(*Source).deliverDeferredAcks")
+	if one == nil || loop == nil {
+		return
+	}
+	res := one.Signature.Results()
+	if res.Len() != 1 || !types.Identical(res.At(0).Type().Underlying(), types.Typ[types.Bool]) {
+		c.R.Fail(r, "deliverOneAck: reports whether the ack was delivered", c.Pos(one.Pos()), "deliverOneAck has no bool result: the delivery loop cannot know that an ack was given up on, and goes on to deliver the acks queued behind it — the plugin is told about position k+1 without ever being told about k")
+		return
+	}
+	var sends []ssa.CallInstruction
+	for _, b := range one.Blocks {
+		for _, in := range b.Instrs {
+			if ci, ok := in.(ssa.CallInstruction); ok && ci.Common().IsInvoke() && ci.Common().Method.Name() == "Send" {
+				sends = append(sends, ci)
+			}
+		}
+	}
+	g := kit.NewGates()
+	for _, sd := range sends {
+		g.AddEdges(kit.OKEdges(sd), "stream.Send succeeded")
+	}
+	var trues []ssa.Instruction
+	for _, ret := range kit.Returns(one) {
+		v := kit.RetVal(ret, 0)
+		switch {
+		case kit.IsBoolConst(v, true):
+			trues = append(trues, ret)
+		case kit.IsBoolConst(v, false):
+		default:
+			// a computed result: it must itself be the success of the send
+			trues = append(trues, ret)
+		}
+	}
+	c.R.Check(len(trues) >= 1 && len(sends) == 1, r, "deliverOneAck: a delivered return exists", c.Pos(one.Pos()), "found", "no `return true` / single stream.Send found in deliverOneAck", true)
+	c.Dominated(r, "deliverOneAck: reports delivered only when the send succeeded", trues, g, "the stream.Send success edge")
+	// the loop
+	calls := kit.CallsTo(loop, Set(one.Object().(*types.Func)))
+	c.R.Check(len(calls) >= 1, r, "deliverDeferredAcks: deliverOneAck call", c.Pos(loop.Pos()), "found", "no call of deliverOneAck in deliverDeferredAcks", true)
+	for _, call := range calls {
+		cv := call.Value()
+		guarded := false
+		if cv != nil {
+			for _, b := range loop.Blocks {
+				iff, ok := b.Instrs[len(b.Instrs)-1].(*ssa.If)
+				if !ok {
+					continue
+				}
+				if !boolDerivesFrom(iff.Cond, cv) {
+					continue
+				}
+				for _, sc := range b.Succs {
+					// the edge b→sc dominates the call (sc has no other predecessor)
+					if (sc == call.Block() || sc.Dominates(call.Block())) && len(sc.Preds) == 1 && b.Succs[0] != b.Succs[1] {
+						guarded = true
+					}
+				}
+			}
+		}
+		c.R.Check(guarded, r, "deliverDeferredAcks: nothing is delivered behind an undelivered ack", c.Pos(call.Pos()), "guarded by the earlier results", "deliverDeferredAcks calls deliverOneAck for every queued entry regardless of whether an earlier entry was given up on (retries exhausted, stream torn down, back-off interrupted): when the stream recovers, the plugin receives position k+1 without k — a cumulative-position source commits past a record it was never told about", true)
+	}
+}
+
+// boolDerivesFrom: v is computed from src through phis, negations and boolean/bitwise combinations.
+func boolDerivesFrom(v, src ssa.Value) bool {
+	seen := map[ssa.Value]bool{}
+	var walk func(x ssa.Value) bool
+	walk = func(x ssa.Value) bool {
+		if x == nil || seen[x] {
+			return false
+		}
+		seen[x] = true
+		if x == src {
+			return true
+		}
+		switch y := x.(type) {
+		case *ssa.Phi:
+			for _, e := range y.Edges {
+				if walk(e) {
+					return true
+				}
+			}
+		case *ssa.UnOp:
+			if y.Op == token.NOT {
+				return walk(y.X)
+			}
+			return kit.DerivesFrom(x, func(z ssa.Value) bool { return z == src })
+		case *ssa.BinOp:
+			return walk(y.X) || walk(y.Y)
+		default:
+			return kit.DerivesFrom(x, func(z ssa.Value) bool { return z == src })
+		}
+		return false
+	}
+	return walk(v)
 }
